@@ -258,6 +258,7 @@ class Engine:
         for k in ('paths', 'solver_calls', 'solver_s', 'steps', 'forks', 'pruned'):
             s.stats.setdefault(k, 0)
         s.level = 0
+        s.deadline = None    # optional wall-clock limit (epoch seconds); exceeding it makes the run inconclusive
         s.on_return = None   # history mode: called when the outermost frame returns; may push the next call
         s.trace = False
         s.fns_seen = set()
@@ -732,6 +733,10 @@ class Engine:
             s.stats['steps'] += 1
             if s.stats['steps'] > s.lim.steps:
                 raise Unsupported('step limit')
+            if s.deadline is not None and s.stats['steps'] % 2000 == 0:
+                import time as _t
+                if _t.time() > s.deadline:
+                    raise Unsupported('deadline exceeded')
             fr = st.frames[-1]
             stmts = P.block(fr.fn, fr.bb)
             stmt = stmts[fr.ip]
